@@ -63,7 +63,7 @@ OPS = ["NewObjectId", "AddObject", "Replace", "DeleteObject", "RemoveAnnot", "Pr
 MODEL_FINDINGS = []          # repaired: resources.shadow.deep 8ecb6b6, fresh.aboveMax / maxid.setObject 692e806, counts.indirect 517c497, delete.bookmark d56c356
 # ... and with the repaired defects seeded back (Editing!DevSeeded / FormerFindings): the negative control of the Judge
 FORMER_FINDINGS = ["delete.array.dup", "delete.streamdict", "delete.trailer", "resources.shadow", "contents.refToArray",
-                   "content.streamBoundary", "content.sharedStream", "resources.nameCollision", "resources.shadow.deep", "fresh.aboveMax", "maxid.setObject", "counts.indirect", "delete.bookmark"]
+                   "content.streamBoundary", "content.sharedStream", "resources.nameCollision", "resources.shadow.deep", "fresh.aboveMax", "maxid.setObject", "counts.indirect", "delete.bookmark", "resources.shadow.incremental"]
 DRIFT = ("drift.",)
 
 
@@ -320,6 +320,9 @@ def input_classes(recs):
                     cl.add("renumber:start-above")
                 if st == 1 and gap:
                     cl.add("renumber:from-1+gap")
+            if op in ("AddXObject", "AddGraphicsState", "GetOrCreateResources") and r["c"]["fmt"] == "inc" and r["c"]["id"] in pages:
+                own = objs.get(r["c"]["id"], {}).get("v", {}).get("Resources")
+                cl.add("inc-resource-call-on:" + ("own-resources" if own else "inheriting-page"))
             if op == "AddGraphicsState" and r["c"]["id"] in pages:
                 own = objs.get(r["c"]["id"], {}).get("v", {}).get("Resources")
                 if own and own["k"] == "ref":
@@ -634,6 +637,16 @@ def deep_corruptions(prog):
     return [("add_xobject hides Resources 128 levels up", 1, "resources.shadow.deep", p)]
 
 
+def incremental_corruptions():
+    """IncrementalDocument::add_xobject (c.fmt = "inc") on a page that inherits its Resources hides the font"""
+    p = synthetic_deep(levels=2)
+    p[1]["c"]["fmt"] = "inc"
+    ok = json.loads(json.dumps(p))
+    p[1]["set"][0][1]["v"]["Resources"] = D(XObject=D(X1=R(4)))
+    p[1]["er"] = [[5, [["XObject", "X1"]]]]
+    return ok, [("IncrementalDocument::add_xobject hides inherited Resources", 1, "resources.shadow.incremental", p)]
+
+
 def shared_corruptions(prog):
     p = json.loads(json.dumps(prog))
     p[1]["set"] = [[4, S(B("Z\n"))]]          # the shared stream is rewritten in place: page 5 changes too
@@ -779,8 +792,12 @@ def negative_controls(chk, w):
         vsx = judge_records(chk, pr, name, 1)
         if any(v["v"] not in ("ok", "ok-drift") for v in vsx):
             raise vlib.ToolError("the hand-made conforming program %s is not accepted by Trace_Editing: %s" % (name, vsx))
+    prog6, inc_cors = incremental_corruptions()
+    vs6 = judge_records(chk, prog6, "c11-neg-base6", 1)
+    if any(v["v"] not in ("ok", "ok-drift") for v in vs6):
+        raise vlib.ToolError("the hand-made conforming incremental program is not accepted by Trace_Editing: %s" % vs6)
     cors = (corruptions(prog) + insert_corruptions(prog2) + shared_corruptions(prog3) + audit_corruptions(prog4)
-            + deep_corruptions(prog5))
+            + deep_corruptions(prog5) + inc_cors)
     recs = []
     for _, _, _, p in cors:
         recs += p
@@ -887,6 +904,7 @@ def run(tier):
             "resources:inherited-or-none", "annots", "pages>=3", "nested-tree", "loaded", "loaded-xref-stream", "compressed-stream",
             "program>=20", "resources:shared",
             "resources:127-levels-up", "resources:128-levels-up", "resources:129-levels-up", "resources:201-levels-up",
+            "inc-resource-call-on:own-resources", "inc-resource-call-on:inheriting-page",
             "count:indirect", "kids:indirect", "replace:above-max_id", "deletepages:bookmarked-page",
             "deletepages:indirect-count-above",
             "renumber:start-inside+gap", "renumber:start-above", "renumber:from-1+gap",
